@@ -106,11 +106,7 @@ impl CdnConfig {
         let sizes = self
             .entries
             .get("archives-index-size")
-            .map(|v| {
-                v.iter()
-                    .filter_map(|s| s.parse::<u64>().ok())
-                    .collect::<Vec<_>>()
-            })
+            .map(|v| sizes_by_position(v))
             .unwrap_or_default();
 
         archives
@@ -118,7 +114,7 @@ impl CdnConfig {
             .enumerate()
             .map(|(i, content_key)| ArchiveInfo {
                 content_key,
-                index_size: sizes.get(i).copied(),
+                index_size: sizes.get(i).copied().flatten(),
             })
             .collect()
     }
@@ -155,11 +151,7 @@ impl CdnConfig {
         let sizes = self
             .entries
             .get("patch-archives-index-size")
-            .map(|v| {
-                v.iter()
-                    .filter_map(|s| s.parse::<u64>().ok())
-                    .collect::<Vec<_>>()
-            })
+            .map(|v| sizes_by_position(v))
             .unwrap_or_default();
 
         archives
@@ -167,7 +159,7 @@ impl CdnConfig {
             .enumerate()
             .map(|(i, content_key)| ArchiveInfo {
                 content_key,
-                index_size: sizes.get(i).copied(),
+                index_size: sizes.get(i).copied().flatten(),
             })
             .collect()
     }
@@ -187,11 +179,7 @@ impl CdnConfig {
         let sizes = self
             .entries
             .get("file-index-size")
-            .map(|v| {
-                v.iter()
-                    .filter_map(|s| s.parse::<u64>().ok())
-                    .collect::<Vec<_>>()
-            })
+            .map(|v| sizes_by_position(v))
             .unwrap_or_default();
 
         indices
@@ -199,12 +187,18 @@ impl CdnConfig {
             .enumerate()
             .map(|(i, content_key)| ArchiveInfo {
                 content_key,
-                index_size: sizes.get(i).copied(),
+                index_size: sizes.get(i).copied().flatten(),
             })
             .collect()
     }
 
     /// Set archives with their index sizes
+    ///
+    /// The size list is positional (one value per archive, separated by
+    /// spaces), so it cannot leave a slot out. If at least one archive has a
+    /// size, an archive without one is written as `0`, which the getters read
+    /// back as "no size" (an index is never empty). If no archive has a size,
+    /// the size list is removed.
     pub fn set_archives(&mut self, archives: Vec<ArchiveInfo>) {
         let mut archive_hashes = Vec::new();
         let mut index_sizes = Vec::new();
@@ -212,30 +206,17 @@ impl CdnConfig {
 
         for info in archives {
             archive_hashes.push(info.content_key);
-            if let Some(size) = info.index_size {
-                index_sizes.push(size.to_string());
-                has_any_size = true;
-            } else {
-                // If any archive has a size, we need to maintain position
-                // This will be fixed later if all archives have sizes
-                index_sizes.push(String::new());
-            }
+            has_any_size |= info.index_size.is_some();
+            index_sizes.push(info.index_size.unwrap_or(0).to_string());
         }
 
         self.entries.insert("archives".to_string(), archive_hashes);
 
-        // Only add index sizes if at least one archive has a size
-        // and trim trailing empty entries
         if has_any_size {
-            // Remove trailing empty strings
-            while index_sizes.last() == Some(&String::new()) {
-                index_sizes.pop();
-            }
-
-            if !index_sizes.is_empty() {
-                self.entries
-                    .insert("archives-index-size".to_string(), index_sizes);
-            }
+            self.entries
+                .insert("archives-index-size".to_string(), index_sizes);
+        } else {
+            self.entries.remove("archives-index-size");
         }
     }
 
@@ -346,11 +327,7 @@ impl CdnConfig {
         let sizes = self
             .entries
             .get("patch-file-index-size")
-            .map(|v| {
-                v.iter()
-                    .filter_map(|s| s.parse::<u64>().ok())
-                    .collect::<Vec<_>>()
-            })
+            .map(|v| sizes_by_position(v))
             .unwrap_or_default();
 
         indices
@@ -358,7 +335,7 @@ impl CdnConfig {
             .enumerate()
             .map(|(i, content_key)| ArchiveInfo {
                 content_key,
-                index_size: sizes.get(i).copied(),
+                index_size: sizes.get(i).copied().flatten(),
             })
             .collect()
     }
@@ -391,6 +368,16 @@ impl crate::CascFormat for CdnConfig {
     fn build(&self) -> Result<Vec<u8>, Box<dyn std::error::Error>> {
         Ok(self.build())
     }
+}
+
+/// Sizes of a positional size list: the value at position i belongs to the
+/// archive at position i. A value that is no number, or `0`, is "no size" and
+/// keeps its position.
+fn sizes_by_position(values: &[String]) -> Vec<Option<u64>> {
+    values
+        .iter()
+        .map(|s| s.parse::<u64>().ok().filter(|size| *size != 0))
+        .collect()
 }
 
 #[cfg(test)]
@@ -522,6 +509,47 @@ mod tests {
             Some("aabbccddee0011223344556677889900")
         );
         assert_eq!(reparsed.patch_file_index_size(), Some(5000));
+    }
+
+    #[test]
+    fn test_archive_without_size_keeps_the_other_sizes_in_place() {
+        let archives = vec![
+            ArchiveInfo {
+                content_key: "aabbccddee0011223344556677889900".to_string(),
+                index_size: Some(1000),
+            },
+            ArchiveInfo {
+                content_key: "0099887766554433221100eeddccbbaa".to_string(),
+                index_size: None,
+            },
+            ArchiveInfo {
+                content_key: "00112233445566778899aabbccddeeff".to_string(),
+                index_size: Some(3000),
+            },
+        ];
+        let sizes = |c: &CdnConfig| -> Vec<Option<u64>> {
+            c.archives().into_iter().map(|a| a.index_size).collect()
+        };
+
+        let mut config = CdnConfig::new();
+        config.set_archives(archives.clone());
+        assert_eq!(sizes(&config), vec![Some(1000), None, Some(3000)]);
+        assert!(config.validate().is_ok());
+
+        let reparsed = CdnConfig::parse(&config.build()[..]).expect("reparse should succeed");
+        assert_eq!(sizes(&reparsed), vec![Some(1000), None, Some(3000)]);
+
+        // Without any size the list of an earlier call does not stay behind
+        config.set_archives(
+            archives
+                .into_iter()
+                .map(|a| ArchiveInfo {
+                    index_size: None,
+                    ..a
+                })
+                .collect(),
+        );
+        assert_eq!(sizes(&config), vec![None, None, None]);
     }
 
     #[test]
